@@ -580,6 +580,18 @@ def container_checks(run):
         yield "v_reassign", lambda m: setattr(m, "vertices", np.array(m.vertices) * 2.0), True
         yield "f_reassign", lambda m: setattr(m, "faces", np.array(m.faces)[::-1].copy()), True
         yield "v_reassign_same", lambda m: setattr(m, "vertices", np.array(m.vertices).copy()), False
+
+        def none_then_back(attr):
+            def f(m):
+                keep = np.array(getattr(m, attr)).copy()
+                setattr(m, attr, None)
+                setattr(m, attr, keep)
+
+            return f
+
+        # cleared and assigned again: same bytes, so the same hash as any mesh holding them
+        yield "v_none_then_reassign", none_then_back("vertices"), False
+        yield "f_none_then_reassign", none_then_back("faces"), False
         yield "read_area", lambda m: m.area, False
         yield "read_normals", lambda m: m.face_normals, False
         yield "read_copy", lambda m: m.copy(), False
@@ -766,6 +778,34 @@ def container_checks(run):
     if s.__hash__() == h1:
         run.violation("container kind=scene edit=graph_update sym=hash_unchanged",
                       "scene hash unchanged after a graph edit", {})
+    # several geometries holding EQUAL arrays (two copies of one part; one object under two
+    # names), all edited the same way between two hash reads: the scene hash must move
+    for how in ("two_copies", "shared_object", "four_copies"):
+        sc = trimesh.Scene()
+        if how == "shared_object":
+            part = box.copy()
+            parts = [part, part]
+        else:
+            parts = [box.copy() for _ in range(2 if how == "two_copies" else 4)]
+        for i, part in enumerate(parts):
+            sc.add_geometry(part, geom_name="part%d" % i, node_name="n%d" % i,
+                            transform=trimesh.transformations.translation_matrix([3.0 * i, 0, 0]))
+        h0 = sc.__hash__()
+        b0 = np.array(sc.bounds)
+        seen = set()
+        for part in parts:
+            if id(part) not in seen:
+                seen.add(id(part))
+                part.vertices *= 2.0
+        run.case("container:scene:equal_geometries_edited:" + how)
+        run.count("container_checks")
+        if sc.__hash__() == h0:
+            run.violation("container kind=scene edit=equal_geometries:%s sym=hash_unchanged" % how,
+                          "every geometry of the scene was edited in place but the scene hash did not change", {"how": how})
+        if np.allclose(np.array(sc.bounds), b0):
+            run.violation("container kind=scene edit=equal_geometries:%s sym=stale_bounds" % how,
+                          "scene bounds unchanged after scaling every geometry in place", {"how": how})
+
     s2 = trimesh.Scene([box.copy(), ico.copy()])
     s3 = trimesh.Scene([box.copy(), ico.copy()])
     run.case("container:scene:equal")
